@@ -31,19 +31,36 @@ class Hang(BaseException):
     pass
 
 
+_budgets = []   # stack of [seconds, cpu0, wall0] of the active with_budget calls
+
+
 def _alarm(signum, frame):
+    # The budget is on the CPU time of THIS process, so that a loaded machine (other checks, builds) does not turn a
+    # slow call into a reported hang: a call that spins burns CPU and is stopped after `seconds` of it; a call that is
+    # merely waiting (for the model process, for the scheduler) is given up to 30 x `seconds` of wall time.
+    if _budgets:
+        seconds, cpu0, wall0 = _budgets[-1]
+        cpu = time.process_time() - cpu0
+        wall = time.monotonic() - wall0
+        if cpu < seconds * 0.9 and wall < seconds * 30:
+            signal.setitimer(signal.ITIMER_REAL, max(0.2, seconds - cpu))
+            return
     raise Hang()
 
 
 def with_budget(seconds, fn, *a, **kw):
-    """run fn under a CPU/wall budget; Hang (a BaseException) is raised inside fn on expiry"""
+    """run fn under a CPU budget (wall budget 30 x); Hang (a BaseException) is raised inside fn on expiry"""
     old = signal.signal(signal.SIGALRM, _alarm)
+    _budgets.append([seconds, time.process_time(), time.monotonic()])
     signal.setitimer(signal.ITIMER_REAL, seconds)
     try:
         return fn(*a, **kw)
     finally:
         signal.setitimer(signal.ITIMER_REAL, 0)
+        _budgets.pop()
         signal.signal(signal.SIGALRM, old)
+        if _budgets:   # an enclosing budget: re-arm it
+            signal.setitimer(signal.ITIMER_REAL, 0.2)
 
 
 def exn_class(e):
